@@ -54,7 +54,9 @@ def run_check(prop, tier):
     kernel.import_library()   # pristine orchestrator: import, then hands off
     jobs = wl.jobs_for(tier, seed)
     timeout = 900 if tier == "quick" else 6 * 3600
-    agg = kernel.run_batch(wl, jobs, workers, timeout)
+    agg = kernel.run_batch(
+        wl, jobs, workers, timeout,
+        stop_on_violation=bool(os.environ.get("VERIF_STOP_ON_VIOLATION")))
     if agg.harness_errors:
         for e in agg.harness_errors[:5]:
             print("HARNESS-ERROR: %s" % e)
@@ -89,7 +91,9 @@ def run_check(prop, tier):
             try:
                 small, tests = kernel.minimise(
                     wl, trace, key,
-                    budget_s=120 if tier == "quick" else 400)
+                    budget_s=float(os.environ.get(
+                        "VERIF_MIN_BUDGET",
+                        "120" if tier == "quick" else "400")))
                 vs = [x for x in wl.check_trace(small)
                       if kernel.violation_key(x) == key]
             except kernel.HarnessError as exc:
@@ -103,8 +107,9 @@ def run_check(prop, tier):
                 len(small["steps"]), tests))
             print("VIOLATION property=%s replay=%s" % (prop, path))
     wall = kernel._real_monotonic() - t0
-    write_evidence(prop, wl, tier, seed, agg, wall, len(unknown), workers,
-                   replay_paths, len(jobs))
+    if not os.environ.get("VERIF_NO_EVIDENCE"):
+        write_evidence(prop, wl, tier, seed, agg, wall, len(unknown),
+                       workers, replay_paths, len(jobs))
     print("%s: %d runs, %d checked operations, %d violation(s) "
           "(%d known), %.1fs" % (
               prop, agg.runs, agg.counters.get("ops", 0),
@@ -203,6 +208,10 @@ def main(argv):
             return run_check(cmd, tier)
         if cmd == "replay":
             return run_replay(argv[1])
+        if cmd == "_digests":
+            from isosim import selftest
+            return selftest.print_digests(argv[1], int(argv[2]),
+                                          int(argv[3]))
         if cmd == "selftest-determinism":
             from isosim import selftest
             return selftest.determinism(argv[1:] or sorted(WORKLOADS))
